@@ -50,6 +50,7 @@ class Ctx:
         self.worklist = []
         self.stats = stats
         self.assumed_any = False
+        self.bounds = {}  # declared ranges of symbolic ints (used by the bit-hull inference)
 
     def _check(self, *extra):
         self.stats["queries"] += 1
@@ -255,6 +256,80 @@ def _runs(c):
         else:
             i += 1
     return out
+
+
+def _tz(c):
+    """number of trailing zero bits of a python int (64 for zero: 'divisible by anything we ask about')"""
+    return 64 if c == 0 else (c & -c).bit_length() - 1
+
+
+def _absint(e, bounds, memo):
+    """tiny abstract interpreter over z3 Int terms: returns (lo, hi, tz) with lo <= e <= hi (None = unbounded) and 2^tz | e.
+    Variable ranges come from the declared ranges of the path's symbolic inputs (they are assumptions of the path condition)."""
+    k = e.get_id()
+    if k in memo:
+        return memo[k]
+    r = (None, None, 0)
+    if z3.is_int_value(e):
+        v = e.as_long()
+        r = (v, v, _tz(v))
+    elif z3.is_const(e) and e.decl().kind() == z3.Z3_OP_UNINTERPRETED:
+        lo, hi = bounds.get(e.decl().name(), (None, None))
+        r = (lo, hi, 0)
+    elif z3.is_app(e):
+        kind = e.decl().kind()
+        ch = [_absint(c, bounds, memo) for c in e.children()] if kind in (z3.Z3_OP_ADD, z3.Z3_OP_SUB, z3.Z3_OP_MUL, z3.Z3_OP_IDIV, z3.Z3_OP_MOD,
+                                                                          z3.Z3_OP_UMINUS) else None
+        if kind == z3.Z3_OP_ADD:
+            lo = None if any(c[0] is None for c in ch) else sum(c[0] for c in ch)
+            hi = None if any(c[1] is None for c in ch) else sum(c[1] for c in ch)
+            r = (lo, hi, min(c[2] for c in ch))
+        elif kind == z3.Z3_OP_SUB and len(ch) == 2:
+            (al, ah, at), (bl, bh, bt) = ch
+            r = (None if al is None or bh is None else al - bh, None if ah is None or bl is None else ah - bl, min(at, bt))
+        elif kind == z3.Z3_OP_UMINUS:
+            (al, ah, at), = ch
+            r = (None if ah is None else -ah, None if al is None else -al, at)
+        elif kind == z3.Z3_OP_MUL:
+            lo, hi, t = 1, 1, 0
+            for cl, chh, ct in ch:
+                t += ct
+                if lo is None or cl is None or chh is None:
+                    lo = hi = None
+                else:
+                    prods = [lo * cl, lo * chh, hi * cl, hi * chh]
+                    lo, hi = min(prods), max(prods)
+            r = (lo, hi, min(t, 64))
+        elif kind == z3.Z3_OP_IDIV and len(ch) == 2 and ch[1][0] is not None and ch[1][0] == ch[1][1] and ch[1][0] > 0:
+            d = ch[1][0]
+            al, ah, at = ch[0]
+            t = at - _tz(d) if (d & (d - 1)) == 0 and at >= _tz(d) else 0
+            r = (None if al is None else al // d, None if ah is None else ah // d, t)
+        elif kind == z3.Z3_OP_MOD and len(ch) == 2 and ch[1][0] is not None and ch[1][0] == ch[1][1] and ch[1][0] > 0:
+            d = ch[1][0]
+            al, ah, at = ch[0]
+            if al is not None and ah is not None and al >= 0 and ah < d:
+                r = (al, ah, at)
+            else:
+                r = (0, d - 1, min(at, _tz(d)))
+        elif kind == z3.Z3_OP_ITE:
+            x, y = _absint(e.arg(1), bounds, memo), _absint(e.arg(2), bounds, memo)
+            r = (None if x[0] is None or y[0] is None else min(x[0], y[0]), None if x[1] is None or y[1] is None else max(x[1], y[1]), min(x[2], y[2]))
+    memo[k] = r
+    return r
+
+
+def _infer_bits(e):
+    """bit hull [lo, hi) of an integer term from the declared input ranges (None if not provably non-negative and bounded)"""
+    ctx = CTX
+    if ctx is None:
+        return None
+    lo, hi, t = _absint(e, ctx.bounds, {})
+    if lo is None or hi is None or lo < 0:
+        return None
+    if hi == 0:
+        return (0, 0)
+    return (min(t, hi.bit_length() - 1), hi.bit_length())
 
 
 class SInt:
@@ -467,6 +542,10 @@ class SInt:
         if hasattr(o, "__sym_int__"):
             return NotImplemented
         bs, bo = s.bits, _bits_of(o)
+        if bs is None:
+            bs = s.bits = _infer_bits(s.e)
+        if bo is None and isinstance(o, SInt):
+            bo = o.bits = _infer_bits(o.e)
         if bs is not None and bo is not None and (bs[1] <= bo[0] or bo[1] <= bs[0] or bs[0] == bs[1] or bo[0] == bo[1]):
             l = lift(o)
             lo = min(b[0] for b in (bs, bo) if b[0] != b[1]) if (bs[0] != bs[1] or bo[0] != bo[1]) else 0
@@ -718,6 +797,7 @@ class SymV:
     def int(self, name, lo=None, hi=None):
         v = z3.Int(name)
         self.decls[name] = ("int", lo, hi)
+        CTX.bounds[name] = (lo, hi)
         if lo is not None:
             CTX.assume(v >= lo)
         if hi is not None:
